@@ -7,6 +7,7 @@
    ParseBuild / build.Format) are NOT modelled.  No proofs here. *)
 From Coq Require Import String.
 From PlzV Require Import Base.Harness Gen.C38Fmt.
+From PlzV Require Export Model.C38Expr Model.C38Str.
 Local Open Scope list_scope.
 
 (* ---- the statement list as simplify sees it ------------------------------------------------------ *)
@@ -208,7 +209,13 @@ Inductive case :=
    every input statement, and the harness's own shape test "an f-string argument was moved over an earlier argument" *)
 | CSimp (input observed : list stmt) (valid : list bool) (moved : bool)
 (* a file holding the single byte b after `x = 1\n`: 0 = parsed or any other error, 1 = "Unknown symbol", 2 = the tab error *)
-| CByte (b : N) (observed : N).
+| CByte (b : N) (observed : N)
+(* an integer operator chain `e = <chain>` in a file: the text the real format() printed for it and the values the real
+   binary computed for it before and after formatting (V0 = 7, V1 = 10, V2 = 3) *)
+| CExpr (c : chain) (formatted : str) (before after : Z)
+(* a plain string literal (quote byte, triple?, the bytes between the quotes): the token the real format() printed and the
+   values the real asp lexer read before and after *)
+| CStr (quote : N) (ml : bool) (body : str) (formatted : str) (before after : str).
 
 Definition lex_code (c : lexclass) : N :=
   match c with LexUnknown => 1 | LexFail => 2 | _ => 0 end%N.
@@ -221,4 +228,11 @@ Definition check (c : case) : bool :=
       && list_eqb Bool.eqb (map (fun x => negb (unmergeable x)) input) valid
       && Bool.eqb (hoisted input) moved
   | CByte b observed => N.eqb (lex_code (lex_class b)) observed
+  | CExpr c formatted before after =>
+      str_eqb (C38Expr.render (fmt_chain c)) formatted && Z.eqb (zeval c) before && Z.eqb (zeval (fmt_chain c)) after
+  | CStr quote ml body formatted before after =>
+      option_eqb (fun a b => str_eqb (fst a) (fst b) && str_eqb (snd a) (snd b))
+                 (lex_string (delim quote ml ++ body ++ delim quote ml)) (Some (before, []))
+      && option_eqb str_eqb (bt_print quote ml body) (Some formatted)
+      && option_eqb (fun a b => str_eqb (fst a) (fst b) && str_eqb (snd a) (snd b)) (lex_string formatted) (Some (after, []))
   end.
